@@ -619,7 +619,7 @@ func TestSenderFaults(t *testing.T) {
 func TestSocketBackends(t *testing.T) {
 	rapid.Check(t, func(t *rapid.T) {
 		variant := rapid.SampledFrom([]string{"graphite/tags", "graphite/legacy", "statsdaemon/tcp", "statsdaemon/udp", "stdout", "null"}).Draw(t, "variant")
-		mode := rapid.SampledFrom([]string{"accept", "close-listener-then-send", "cancel-request"}).Draw(t, "mode")
+		mode := rapid.SampledFrom([]string{"accept", "close-listener-then-send", "cancel-request", "cancelled-before-call"}).Draw(t, "mode")
 		kit, err := bk.New(variantByName(variant), bk.Options{})
 		if err != nil {
 			t.Fatalf("%v", err)
@@ -631,17 +631,21 @@ func TestSocketBackends(t *testing.T) {
 		}
 		for f := 0; f < flushes; f++ {
 			ctx, cancel := context.WithCancel(context.Background())
+			if mode == "cancelled-before-call" {
+				cancel() // every hand-off inside the backend sees a finished context
+			}
 			var calls int32
 			cb := make(chan []error, 4)
 			ret := make(chan interface{}, 1)
+			series := rapid.SampledFrom([]int{0, 1, 3, 400}).Draw(t, "series")
 			go func() {
 				defer func() { ret <- recover() }()
-				kit.Backend.SendMetricsAsync(ctx, testMap(rapid.SampledFrom([]int{0, 1, 3}).Draw(t, "series")), func(errs []error) {
+				kit.Backend.SendMetricsAsync(ctx, testMap(series), func(errs []error) {
 					atomic.AddInt32(&calls, 1)
 					cb <- errs
 				})
 			}()
-			if mode != "accept" {
+			if mode != "accept" && mode != "cancelled-before-call" {
 				// the connection cannot recover: the request completes when it is cancelled
 				time.AfterFunc(time.Duration(rapid.IntRange(0, 20).Draw(t, "cancel-after-ms"))*time.Millisecond, cancel)
 			}
